@@ -25,6 +25,45 @@ entry points state no length unit and no absolute tolerance (checked in dvect.py
 System.dvect/dmag: none in the code either; Box's clean-up of vector components is relative, 1e-9 max|vects|), so the
 same oracles apply, and every tolerance below is relative to the size of the cell (sc) or dimensionless.
 
+Generator classes carried over from the other properties (seeded regressions of rounds 1-4) and where they live here:
+  A  result ledger            Ledger (results of every judged call, warm-up calls and calls with other numbers of pairs / other
+                              reference cells included), re-judged bit for bit after all later calls; results of two calls must not
+                              share memory                                              labels ledger, ledger_mixed_counts, ledger_warm
+  B  caller-side mutation     inputs bit-identical after every call (position arrays, index arrays, pbc flags, the Box, the periodicity
+                              and storage of the Systems: Ledger.add_input, Setup.call, _sys_state); Setup.reuse / the 'reuse' stage of
+                              oracle_displacement: the caller overwrites in place the arrays it was handed OUT and asks again with the
+                              SAME objects (same bits), overwrites in place the position arrays / pbc flags it handed IN and the
+                              positions its Systems hand out, asks again, re-defines the Box through its setter, asks again; earlier
+                              answers must not move.  (System.pbc keeps a bool ndarray it is given and hands it out again - the
+                              in-place edit of it is a documented way of changing the periodicity, so THAT array is not overwritten
+                              behind the System's back)                                  labels reuse, reuse_inputs, reuse_system
+  C  storage / input dtypes   float32 / float16 (there since round 4), big-endian float storage and arguments, whole-number positions
+                              as int8 ... uint64 / big-endian / bool ndarrays and as nested lists of numpy scalars with the largest or
+                              smallest coordinate ON the limit of the dtype, narrow / unsigned / big-endian index arrays and scalars;
+                              read-only, strided, Fortran-ordered, list, tuple were there        labels pos_be, arg_be, be_stored,
+                              arg_narrowint, arg_npscalars, arg_unsigned, arg_int8_16, arg_int_be, arg_at_limit, idx_i8arr ...
+  D  working units            does not apply: dvect, dmag, System.dvect/dmag and displacement convert no unit, have no default or
+                              tolerance expressed in a unit and cache nothing derived from one (reset_units() cannot reach them); what
+                              a unit change does to their INPUT - the same crystal in another length unit - is the 'scale' of every
+                              case (labels scaled, unit<=1e-7 ...), there since the C17-c1 round
+  E  near-threshold values    kind 'thresh': separations within 1e-3..1e-13 (relative) of HALF a cell vector, i.e. the direct separation
+                              and an image almost - not exactly - equally long (exact ties were there: dyadic cells), points within
+                              1e-3..1e-15 of a face on either side, cells whose tilts are 1e-3..1e-13 lx (Box's documented clean-up of
+                              components below 1e-9 max|vects| is modelled by reading the cell back from the Box)
+                                                                                          labels near_tie, near_face, tiny_tilt_kept
+  F  many decades             kind 'decades' (and displacement 'special'): the separations of the rows of ONE call span 10^0..10^-14 of
+                              the cell; rows whose direct separation wins outright are judged to THEIR OWN size (Setup.row_own: 16 eps
+                              |p1-p0|; applied to every case), and every row of the many-row call equals the same pair alone
+                                                                                          labels row_own, decades8, rows_alone
+  G  exactly structured       cell['sym']: cell vectors relabelled, Cartesian axes permuted and mirrored without arithmetic:
+                              upper-triangular cells, triangular cells with negative diagonal, left-handed cells, signed permutations
+                              of orthogonal cells, cyclic relabellings (exact halves / eighths and integer cells were there)
+                                                                                          labels sym, sym_upper, sym_negdiag, ...
+  H  enumerated options       clause option_pairs: every ORDERED pair of (entry point, periodicity) states - 8 entry points / reference
+                              cells x 8 settings - on the same Box and System objects, then the first again.  (The 8 settings per case
+                              in 16 of their orders, both orders of dvect / dmag and the other reference cells after the chosen one
+                              were there, sampled)                                        labels nt, nt_entries_differ, system_state_shared
+
 Tolerances (derived, no calibration constant):
   every candidate component  d0_j + x b0_j + y b1_j + z b2_j  is formed with <= 4 roundings of quantities bounded
   by  sc = |d0| + |b0| + |b1| + |b2|,  so atomman's and my value of the same image differ by <= 4 eps sc per
@@ -56,6 +95,12 @@ RULE = ("cells as C01 (LAMMPS triangular form, lengths 0.5-50, tilts up to 1.5 l
         "0.01..10) arrays after rounding them to that dtype (displacement: either or both systems); every array handed out by a "
         "judged call (warm-up calls included) is compared with a snapshot taken at return time after all later calls with the same "
         "and (2 cases in 3) other numbers of pairs / other reference cells, and results of different calls must not share memory; "
+        "cells also in their exactly structured versions (cell vectors relabelled, axes permuted and mirrored: upper-triangular, "
+        "negative diagonal, left-handed), near-threshold pairs (almost half a cell vector apart, almost on a face, almost-zero tilts), "
+        "separations spanning 14 decades in one call (rows judged to their own size and against the pair alone), whole-number positions "
+        "in int8..uint64 / big-endian / bool arrays at the limits of the dtype, big-endian float storage; in half the cases the caller "
+        "then overwrites in place what it was handed out and what it handed in and asks again with the same objects; every ordered pair "
+        "of (entry point, periodicity) states enumerated on the same objects; "
         "EVERY case is evaluated under all 8 "
         "periodicity settings (order varied).  Non-trivial: under at least one setting with a periodic axis the winning image of "
         "at least one pair is not the direct separation (displacement: same, with a reference cell chosen)")
@@ -66,7 +111,9 @@ ASSUMPTIONS = ["numpy linear algebra is correct",
                "points exactly on a face (relative coordinate 0 or 1) count as lying in the cell"]
 LEVEL_TEXT = ("Random cells (orthogonal, tilted, rotated, shifted origin, exact dyadic/integer), every one of the 8 "
               "periodicity settings per case, point sets of all broadcast shapes and input spellings through the five public "
-              "entry points; true nearest image decided by an exhaustive lattice search with proven radius.")
+              "entry points; true nearest image decided by an exhaustive lattice search with proven radius; exactly structured cells, "
+              "near-threshold and many-decades point sets, narrow / unsigned / big-endian dtypes, caller-side mutation of everything "
+              "handed in and out, and all 64 x 64 ordered pairs of (entry point, periodicity) states.")
 TECHNIQUE = "integrality of (d-d0).V^-1, 27-candidate minimum, exhaustive nearest-image search, atom-by-atom dvect comparison"
 WALL = {'quick': 60, 'thorough': 560}
 
@@ -75,6 +122,11 @@ PBCS = gens.PBCS
 
 
 # ----------------------------------------------------------------------------- building inputs
+
+def _whole64(A):
+    """whole numbers that an int64 (and a float64) holds exactly"""
+    return bool(np.all(A == np.rint(A)) and np.all(np.abs(A) <= 2.0 ** 53))
+
 
 def int_dtype(idt, A):
     """the integer dtype named `idt` if it holds every value of the whole-number array A exactly, else None"""
@@ -120,11 +172,11 @@ def _spell(P, flat, how, dtype=float, idt=None):
     if how == 'forder':     # column-major memory layout
         return np.asfortranarray(np.array(A, dtype=dtype))
     if how == 'intarray':   # integer-typed ndarray (only for the free functions: System.* documents ints as indices)
-        if np.all(A == np.rint(A)):
+        if _whole64(A):
             return np.rint(A).astype(np.int64)
         return np.array(A, dtype=dtype)
     if how == 'intlist':    # plain Python ints (only for the free functions: System.* documents ints as indices)
-        if np.all(A == np.rint(A)):
+        if _whole64(A):
             return np.rint(A).astype(int).tolist()
         return A.tolist()
     if how == 'list':
@@ -834,7 +886,7 @@ class Setup:
             labs.add('idx_' + case['idx'])
         if self.route != 'sys_idx':
             labs.add('spell_' + case['spell'])
-            if case['spell'] in ('intlist', 'intarray') and self.route == 'func' and np.all(self.P0 == np.rint(self.P0)) and np.all(self.P1 == np.rint(self.P1)):
+            if case['spell'] in ('intlist', 'intarray') and self.route == 'func' and _whole64(self.P0) and _whole64(self.P1):
                 labs.add('int_typed_positions')
         labs.add('kind_' + case['kind'].split('+')[0])
         if '+near' in case['kind']:
@@ -1075,6 +1127,11 @@ def _same_choice(a, b, L27, atol):
     return None
 
 
+def _sys_state(s):
+    """what a System handed to displacement() must still be afterwards (positions are in the ledger)"""
+    return (s.pbc.tolist(), s.box.vects.tobytes(), s.box.origin.tobytes(), s.natoms, s.atoms.pos.dtype.str)
+
+
 def _judge_displacement(am, sys0, sys1, ref, pbcs, pbc_other, labs, ledger, final=True, unit=1.0, stage=''):
     """displacement(sys0, sys1, ref) in the state the two systems are in NOW, for each periodicity setting in `pbcs` of the
     reference system (the other one keeps pbc_other); every array handed out is entered in `ledger`"""
@@ -1097,6 +1154,15 @@ def _judge_displacement(am, sys0, sys1, ref, pbcs, pbc_other, labs, ledger, fina
         err = np.abs(np.array(disp, dtype=float) - D0).max()
         require(err <= 4 * eps * max(np.abs(P0).max(), np.abs(P1).max()),
                 lambda: 'displacement(box_reference=None)%s differs from pos_1 - pos_0 by %.3g' % (stage, err))
+        # ... and every component is ONE subtraction: correct to its own size (atoms that hardly move next to atoms that do)
+        dev = np.abs(np.array(disp, dtype=float) - D0)
+        require(bool(np.all(dev <= 2 * eps * np.abs(D0))),
+                lambda: 'displacement(box_reference=None)%s: component %r of pos_1 - pos_0 = %r came out as %r'
+                % (stage, np.unravel_index(int(np.argmax(dev - 2 * eps * np.abs(D0))), dev.shape), D0.tolist(), np.array(disp, dtype=float).tolist()))
+        nz = np.linalg.norm(D0, axis=1)
+        nz = nz[nz > 0]
+        if final and len(nz) >= 2 and nz.max() >= 1e8 * nz.min():
+            labs.add('decades8')
         if final and np.any(np.abs(D0) > 0):
             labs.add('nt_direct')
         return
@@ -1109,20 +1175,42 @@ def _judge_displacement(am, sys0, sys1, ref, pbcs, pbc_other, labs, ledger, fina
         if final and pbc != pbc_other:
             labs.add('pbc_differ')
         where = 'displacement(box_reference=%r)%s ref pbc=%r other pbc=%r' % (ref, stage, pbc, pbc_other)
+        before = (_sys_state(sys0), _sys_state(sys1))
         if ref == 'default':
             disp = np.asarray(ledger.add(am.displacement(sys0, sys1), where))
         else:
             disp = np.asarray(ledger.add(am.displacement(sys0, sys1, box_reference=ref), where))
+        require((_sys_state(sys0), _sys_state(sys1)) == before, lambda: '%s changed the periodicity / box / storage of a system it was given' % where)
         require(disp.shape == (N, 3) and disp.dtype.kind == 'f', lambda: '%s returned shape %r dtype %r for %d atoms' % (where, disp.shape, disp.dtype, N))
         require(bool(np.all(np.isfinite(disp))), lambda: '%s returned non-finite values' % where)
         disp = np.array(disp, dtype=float)
         check_lattice(disp, D0, Vr, inv, pbc, sc, cond, where)
         _, C, L27 = candidates(D0, Vr, pbc)
         Ld = check_best27(disp, L27, atol, where, C)
+        # atoms whose direct separation wins outright: that separation, each to ITS OWN size (see Setup.row_own)
+        L0 = L27[:, 0]
+        direct = np.all(L27[:, :1] * (1 + 1e-6) < L27[:, 1:], axis=1) if L27.shape[1] > 1 else np.ones(N, dtype=bool)
+        err = np.abs(disp - D0).max(axis=1)
+        bad = direct & (err > 16 * EPS * L0)
+        if bad.any():
+            i = int(np.argmax(bad))
+            raise Violation('%s: atom %d: the direct separation %r wins outright (next candidate > 1e-6 longer) but the displacement '
+                            'is %r (differs by %.3g of its own length; other atoms move by up to %.3g)'
+                            % (where, i, D0[i].tolist(), disp[i].tolist(), err[i] / L0[i], L0.max()))
+        if final and any(pbc) and direct.any():
+            labs.add('row_own')
+            nz = L0[direct & (L0 > 0)]
+            if len(nz) >= 2 and nz.max() >= 1e8 * nz.min():
+                labs.add('decades8')
+        if final and L27.shape[1] > 1:
+            two = np.sort(L27, axis=1)[:, :2]
+            gap = (two[:, 1] - two[:, 0]) / np.where(two[:, 1] > 0, two[:, 1], 1.0)
+            if np.any((gap > 1e-13) & (gap < 1e-3)):
+                labs.add('near_tie')
         # atom by atom against the separation function itself under the reference cell
         for i in range(N):
             one = np.asarray(ledger.add(am.dvect(P0[i], P1[i], refbox, pbc), 'dvect of atom %d, %s' % (i, where)), dtype=float).reshape(3)
-            msg = _same_choice(disp[i], one, L27[i], float(atol[i]))
+            msg = _same_choice(disp[i], one, L27[i], 16 * EPS * float(L0[i]) if direct[i] else float(atol[i]))
             require(msg is None, lambda: '%s: atom %d: displacement vs dvect of the same atom: %s' % (where, i, msg))
         if final and any(pbc) and np.any(L27[:, 0] > Ld * (1 + 1e-9) + 8 * atol):
             labs.add('nt')
@@ -1160,6 +1248,7 @@ def oracle_displacement(case):
     fstore = case.get('fstore') or ['f64', 'f64']
     fdts = [float_dtype(fstore[k], unit) for k in (0, 1)]
     labs |= {'cell0_' + l for l in gens.cell_labels(c[0])}
+    labs |= gens_c02.sym_labels(c[0])
     labs |= unit_labels(unit)
     pbc_other = PBCS[case['pbc_other']]
     hows = [None, None]
@@ -1200,7 +1289,9 @@ def oracle_displacement(case):
             system = am.System(atoms=am.Atoms(pos=_int_form(P, case['iform'])), box=box, pbc=pbc_other)
             labs.add(('int_stored_%d' if system.atoms.pos.dtype.kind in 'iu' else 'int_given_%d') % k)
         elif build == 'scale':
-            system = am.System(atoms=am.Atoms(pos=np.array(S) if fdts[k] is None else narrow(S, fdts[k])), box=box, pbc=pbc_other, scale=True)
+            # (System unscales into the array it was given: a dtype whose range the Cartesian positions leave is not used)
+            fd = fdts[k] if fdts[k] is None or narrow(P, fdts[k]).dtype == np.dtype(fdts[k]) else np.float32
+            system = am.System(atoms=am.Atoms(pos=np.array(S) if fd is None else narrow(S, fd)), box=box, pbc=pbc_other, scale=True)
         elif build == 'safecopy':
             system = am.System(atoms=am.Atoms(pos=np.array(P) if fdts[k] is None else narrow(P, fdts[k])), box=box, pbc=pbc_other, safecopy=True)
         else:
@@ -1233,6 +1324,8 @@ def oracle_displacement(case):
     for k in (0, 1):
         if kinds[k].kind == 'f' and kinds[k].itemsize < 8:
             labs.add('f%d_stored_%d' % (8 * kinds[k].itemsize, k))
+        if kinds[k].byteorder == '>':
+            labs.add('be_stored')
     if all(d.kind == 'f' and d.itemsize < 8 for d in kinds):
         labs.add('narrow_both')
         if all(d.itemsize == 4 for d in kinds):
@@ -1250,8 +1343,137 @@ def oracle_displacement(case):
             if other != ('final' if ref == 'default' else ref):
                 _judge_displacement(am, sys0, sys1, other, [pbc_other], pbc_other, labs, ledger, final=False,
                                     stage=' [afterwards]')
+    if case.get('reuse'):
+        # caller-side mutation: the caller overwrites the array it was handed, moves the atoms of both systems IN PLACE (the
+        # arrays atoms.pos hands out), asks again with the same System objects; then re-defines the boxes through their setters
+        ledger.check_inputs()
+        kw = {} if ref == 'default' else {'box_reference': ref}
+        first = am.displacement(sys0, sys1, **kw)
+        kept = np.array(first, copy=True)
+        if first.flags.writeable:
+            first[...] = -7.25 * unit
+        ledger.add(first, 'a displacement array the caller has overwritten')
+        again = ledger.add(am.displacement(sys0, sys1, **kw), 'displacement, second call with the same objects')
+        require(np.array_equal(again, kept), lambda: 'the same displacement call gave %r first and %r after the caller had overwritten '
+                                                     'the array it was handed' % (kept.tolist(), again.tolist()))
+        moved = False
+        for k, frac in ((0, [0.31, -0.27, 0.44]), (1, [-0.38, 0.12, 0.23])):
+            pos = systems[k].atoms.pos
+            if pos.dtype.kind != 'f':
+                continue
+            with np.errstate(over='ignore'):
+                Y = (np.array(pos, dtype=float) + np.array(frac) @ np.array(systems[k].box.vects, dtype=float)).astype(pos.dtype)
+            if np.all(np.isfinite(Y)):
+                pos[...] = Y
+                ledger.rebase(pos)
+                moved = True
+        if moved:
+            labs.add('reuse_inputs')
+        _judge_displacement(am, sys0, sys1, ref, [PBCS[(case['pbc_other'] + 3) % 8], PBCS[(case['pbc_other'] + 6) % 8]], pbc_other, labs,
+                            ledger, final=False, stage=' [after the caller moved the atoms in place]')
+        for k, f in ((0, [[1.2], [0.9], [1.05]]), (1, [[0.85], [1.15], [1.1]])):
+            if k == 1 and systems[1].box is systems[0].box:
+                continue
+            systems[k].box.vects = np.array(systems[k].box.vects, dtype=float) * np.array(f)
+        _judge_displacement(am, sys0, sys1, ref, [PBCS[(case['pbc_other'] + 5) % 8]], pbc_other, labs, ledger, final=False,
+                            stage=' [after the caller re-defined the boxes through their setter]')
+        labs.add('reuse')
     ledger.verify(labs)
+    for f in ('decades8', 'reuse', 'sym', 'sym_upper', 'near_tie', 'be_stored'):
+        if f in labs and 'nt' in labs:
+            labs.add('nt_' + f)
     return nt_unit_labels(labs)
+
+
+# ----------------------------------------------------------------------------- enumerated option pairs (class H)
+
+# four atoms of system 0 (relative coordinates) and where they are in system 1: every atom crosses at least one face, every
+# axis is crossed by some atom, two atoms cross two / three faces at once - so each of the 8 periodicity settings gives other
+# separations, and a setting left over from another call shows
+_H_S0 = np.array([[0.05, 0.10, 0.92], [0.95, 0.06, 0.50], [0.08, 0.93, 0.04], [0.50, 0.96, 0.91]])
+_H_S1 = np.array([[0.97, 0.12, 0.90], [0.03, 0.95, 0.52], [0.91, 0.05, 0.95], [0.52, 0.04, 0.07]])
+
+
+def oracle_option_pairs(case):
+    """(entry point A under periodicity pa) -> (entry point B under pb) -> A under pa again, all on the SAME Box / System
+    objects; every call judged by the lattice / 27-candidate / length oracles for the state it was made in"""
+    import atomman as am
+    c0 = gens_c02.H_CELLS[case['cell']]
+    c1 = dict(c0, lx=c0['lx'] * 1.0625, lz=c0['lz'] * 0.9375, xy=c0['xy'] + 0.125)
+    V0, o0 = gens_c02.cell_vects(c0), gens_c02.cell_origin(c0)
+    V1, o1 = gens_c02.cell_vects(c1), gens_c02.cell_origin(c1)
+    s0 = am.System(atoms=am.Atoms(pos=_H_S0 @ V0 + o0), box=am.Box(vects=V0, origin=o0), pbc=[False, False, False])
+    s1 = am.System(atoms=am.Atoms(pos=_H_S1 @ V1 + o1), box=am.Box(vects=V1, origin=o1), pbc=[False, False, False])
+    V0, V1 = np.array(s0.box.vects, dtype=float), np.array(s1.box.vects, dtype=float)
+    P, Q = np.array(s0.atoms.pos, dtype=float), np.array(s1.atoms.pos, dtype=float)
+    ledger = Ledger()
+    ledger.add_input(s0.atoms.pos, 'system_0.atoms.pos')
+    ledger.add_input(s1.atoms.pos, 'system_1.atoms.pos')
+    i0, i1 = [0, 1], [2, 3]
+    labs = {'cell_%d' % case['cell'], 'first_' + case['a'], 'second_' + case['b']}
+
+    def run(entry, ip, stage):
+        pbc = PBCS[ip]
+        where = '%s under pbc=%r (%s of %s/%r -> %s/%r -> %s/%r)' % (entry, pbc, stage, case['a'], PBCS[case['pa']], case['b'],
+                                                                      PBCS[case['pb']], case['a'], PBCS[case['pa']])
+        d = m = None
+        if entry in ('dvect', 'dmag'):
+            B0, B1, V = P[:2], P[2:], V0
+            flags = np.array(pbc, dtype=bool)
+            raw = getattr(am, entry)(np.array(B0), np.array(B1), s0.box, flags)
+            require(flags.tolist() == pbc, lambda: '%s changed the flags it was given' % where)
+        elif entry in ('sys_dvect', 'sys_dmag'):
+            B0, B1, V = P[:2], P[2:], V0
+            s0.pbc = pbc
+            raw = getattr(s0, entry[4:])(i0, i1)
+        else:
+            B0, B1 = P, Q
+            if entry == 'disp_initial':
+                s0.pbc, V = pbc, V0
+                raw = am.displacement(s0, s1, box_reference='initial')
+            elif entry == 'disp_none':
+                s0.pbc, V, pbc = pbc, V0, [False, False, False]     # the straight difference whatever the systems say
+                raw = am.displacement(s0, s1, box_reference=None)
+            else:
+                s1.pbc, V = pbc, V1
+                raw = am.displacement(s0, s1) if entry == 'disp_default' else am.displacement(s0, s1, box_reference='final')
+        raw = ledger.add(raw, where)
+        if entry.endswith('dmag'):
+            m = raw
+        else:
+            d = raw
+        judge_pairs(d, m, B0, B1, V, pbc, where)
+        if m is not None:
+            # no dvect to compare with here: the scalar distance is the length of a lattice image, so it is not shorter than
+            # the nearest image found by the exhaustive search (and, judged above, not longer than any of the candidates)
+            mm = np.asarray(m, dtype=float).reshape(-1)
+            ni = NI.NearestImage(V, pbc)
+            D0 = B1 - B0
+            for i in range(len(D0)):
+                tol = 32 * EPS * (float(np.linalg.norm(D0[i])) + float(np.linalg.norm(V, axis=1).sum()))
+                Ls = ni.search(D0[i], tie_rel=1e-9, tie_abs=8 * tol)['L']
+                require(mm[i] >= Ls * (1 - 1e-12) - tol,
+                        lambda: '%s: pair %d: dmag = %.17g is shorter than the nearest image %.17g' % (where, i, mm[i], Ls))
+        return np.array(raw, copy=True)
+
+    r1 = run(case['a'], case['pa'], 'first call')
+    state = (s0.pbc.tolist(), s1.pbc.tolist())
+    r2 = run(case['b'], case['pb'], 'second call')
+    r3 = run(case['a'], case['pa'], 'third call')
+    require(r1.shape == r3.shape and np.array_equal(r1, r3),
+            lambda: '%s under pbc=%r gave %r, and after %s under pbc=%r it gives %r' % (case['a'], PBCS[case['pa']], r1.tolist(), case['b'],
+                                                                                      PBCS[case['pb']], r3.tolist()))
+    require(np.array_equal(s0.box.vects, V0) and np.array_equal(s1.box.vects, V1), lambda: 'a Box was changed by the calls')
+    ledger.verify(labs)
+    if case['a'] != case['b']:
+        labs.add('entries_differ')
+    if case['pa'] != case['pb']:
+        labs.add('nt')      # under the two periodicity settings the separations differ (by construction of the atoms)
+        if case['a'] != case['b']:
+            labs.add('nt_entries_differ')
+    if case['a'][:3] in ('sys', 'dis') and case['b'][:3] in ('sys', 'dis') and case['pa'] != case['pb']:
+        labs.add('system_state_shared')
+    return labs
 
 
 _ROUTES = {'route_sys_idx': 0.1, 'route_sys_pos': 0.05, 'route_sys_mix': 0.045}
@@ -1267,40 +1489,60 @@ _UNITS = {'nt_unit_1': 0.15, 'unit<=1e-7': 0.085, 'nt_unit<=1e-7': 0.065, 'nt_un
 # of pairs; warm-up results among them) and positions stored / passed as float32 / float16 (guards at half the observed share)
 _PROC = {'ledger': 0.5, 'ledger_mixed_counts': 0.38, 'ledger_warm': 0.13, 'after_other_count': 0.32, 'pos_f32': 0.13,
          'nt_pos_f32': 0.1, 'arg_f32': 0.095, 'pos_f16': 0.022, 'nt_pos_f16': 0.016, 'arg_f16': 0.015}
-_COMMON = dict(_ROUTES, **_SHAPES, **_HIST, **_UNITS, **_PROC, nt=0.36, nt_mixed=0.36, tilted=0.33, rotated=0.19, origin=0.23, kind_dyadic=0.06,
+# generator classes carried over (B, C, E, F, G of the header; guards at half - rare labels a third - of the observed share)
+_CROSS = {'reuse': 0.28, 'reuse_inputs': 0.28, 'reuse_system': 0.14, 'nt_reuse': 0.19,
+          'pos_be': 0.07, 'arg_be': 0.05, 'idx_i8arr': 0.002, 'idx_u8arr': 0.003, 'idx_bearr': 0.0025, 'idx_u64s': 0.0025,
+          'idx_i16neg': 0.002,
+          'kind_thresh': 0.05, 'near_tie': 0.055, 'nt_near_tie': 0.05, 'near_face': 0.018, 'half_vector_pairs': 0.028,
+          'tiny_tilt_kept': 0.009,
+          'kind_decades': 0.05, 'row_own': 0.48, 'decades8': 0.03, 'nt_decades8': 0.01, 'rows_alone': 0.05,
+          'sym': 0.26, 'nt_sym': 0.19, 'sym_upper': 0.028, 'nt_sym_upper': 0.022, 'sym_negdiag': 0.035, 'sym_lefthanded': 0.1,
+          'sym_relabel': 0.17}
+# whole-number positions handed to the free functions in narrow / unsigned / big-endian integer dtypes (kind intcart only)
+_NARROW = {'arg_narrowint': 0.0035, 'arg_unsigned': 0.002, 'arg_int8_16': 0.0025, 'arg_at_limit': 0.0035, 'arg_npscalars': 0.0008}
+_COMMON = dict(_ROUTES, **_CROSS, **_SHAPES, **_HIST, **_UNITS, **_PROC, nt=0.36, nt_mixed=0.36, tilted=0.33, rotated=0.19, origin=0.23, kind_dyadic=0.06,
                kind_intcart=0.045)
 _FORMS = {'spell_fview': 0.03, 'spell_tuple': 0.03, 'spell_list': 0.03, 'spell_intlist': 0.03, 'spell_readonly': 0.03,
           'spell_forder': 0.03, 'spell_intarray': 0.03, 'int_given_positions': 0.013}
 
 CLAUSES = [
-    Clause('lattice', oracle_lattice, gens_c02.general, quick=12000, thorough=200000,
-           min_share=dict(_COMMON, **_FORMS, multi_axis_shift=0.22, idx_mask=0.02, idx_slice=0.02, idx_neg=0.02, idx_int=0.025,
+    Clause('lattice', oracle_lattice, gens_c02.general, quick=11500, thorough=220000,
+           min_share=dict(_COMMON, **_FORMS, **_NARROW, multi_axis_shift=0.22, idx_mask=0.02, idx_slice=0.02, idx_neg=0.02, idx_int=0.025,
                           idx_npint=0.015),
            desc='d - (p1-p0) is an integer combination of the cell vectors, zero along non-periodic directions, for all 8 pbc; '
                 'one result row per broadcast pair; am.dvect and System.dvect (positions, atom indices, mixed); also on Box / '
                 'System objects that described another cell before and were changed in place'),
-    Clause('best27', oracle_best27, gens_c02.general, quick=12000, thorough=200000, min_share=dict(_COMMON),
+    Clause('best27', oracle_best27, gens_c02.general, quick=11500, thorough=220000, min_share=dict(_COMMON, **_NARROW),
            desc='|d| is not longer than any of the 27 (9/3/1) candidates with shifts -1,0,+1 on periodic axes, for all 8 pbc'),
-    Clause('mag', oracle_mag, gens_c02.general, quick=10000, thorough=160000,
-           min_share=dict(_COMMON, **_FORMS, idx_mask=0.02, idx_slice=0.02, idx_int=0.025, dmag_first=0.2),
+    Clause('mag', oracle_mag, gens_c02.general, quick=9500, thorough=176000,
+           min_share=dict(_COMMON, **_FORMS, **_NARROW, idx_mask=0.02, idx_slice=0.02, idx_int=0.025, dmag_first=0.2),
            desc='dmag equals |dvect| (same route, same inputs, either order of the two calls) and is not longer than any candidate; '
                 'one value per broadcast pair; also on objects with a history (dmag/dvect called before the box was changed in place)'),
-    Clause('true_nearest', oracle_true_nearest, gens_c02.premise_heavy, quick=10000, thorough=160000,
+    Clause('true_nearest', oracle_true_nearest, gens_c02.premise_heavy, quick=9500, thorough=176000,
            min_share={'nt': 0.35, 'premise_tilted': 0.2, 'premise_tilted_wrapped': 0.1, 'premise_ortho': 0.2,
                       'premise_fails_incell': 0.2, 'premise_onface': 0.19, 'unique_vector_checked': 0.4, 'tie': 0.02,
-                      'beyond27': 0.08, 'kind_dyadic': 0.08, 'hist_changed': 0.18, 'hist_warm_changed': 0.13, **_UNITS, **_PROC},
+                      'beyond27': 0.08, 'kind_dyadic': 0.08, 'hist_changed': 0.18, 'hist_warm_changed': 0.13, **_UNITS, **_PROC, **_CROSS},
            desc='both points in the cell and (cell orthogonal or L* < half the smallest perpendicular width) => |d| equals the '
                 'minimum L* of an exhaustive lattice search (vector too when the minimiser is unique); always |d| >= L*'),
-    Clause('displacement', oracle_displacement, gens_c02.displacement_cases, quick=8000, thorough=120000,
+    Clause('displacement', oracle_displacement, gens_c02.displacement_cases, quick=7500, thorough=132000,
            min_share={'nt': 0.3, 'nt_pbc_differ': 0.3, 'nt_boxes_differ': 0.2, 'ref_initial': 0.14, 'ref_default': 0.07,
                       'ref_None': 0.07, 'ref_final': 0.2, 'hist': 0.2, 'hist_changed': 0.15, 'nt_hist_changed': 0.12,
                       'hist_warm': 0.07, 'hist_wrap': 0.03, 'hist_sys_box_set_scale': 0.05, 'int_given_0': 0.1,
                       'int_given_1': 0.035, 'nt_int0_fractional': 0.05, 'build_scale': 0.06, 'build_safecopy': 0.07,
                       'ledger': 0.45, 'ledger_mixed_counts': 0.33, 'after_other_ref': 0.2, 'f32_both': 0.08, 'nt_f32_both': 0.055,
                       'narrow_both': 0.1, 'nt_narrow_both': 0.07, 'f32_stored_0': 0.12, 'f32_stored_1': 0.13, 'f16_both': 0.012,
-                      'nt_f16_both': 0.009, **dict(_UNITS, hist_other_unit=0.04)},
+                      'nt_f16_both': 0.009, **dict(_UNITS, hist_other_unit=0.04),
+                      'sym': 0.26, 'nt_sym': 0.18, 'sym_upper': 0.03, 'nt_sym_upper': 0.022, 'near_tie': 0.035, 'nt_near_tie': 0.03,
+                      'row_own': 0.37, 'decades8': 0.015, 'nt_decades8': 0.004, 'reuse': 0.28, 'reuse_inputs': 0.28, 'nt_reuse': 0.17,
+                      'be_stored': 0.09, 'nt_be_stored': 0.06},
            desc="displacement(s0, s1, box_reference) under 'final'/default, 'initial', None: lattice + 27-candidate oracles under "
                 'the reference cell and pbc, and equal to dvect atom by atom; all 8 pbc of the reference system; systems holding '
                 'whole-number positions as integers or float32 / float16 positions, built with scale=True / safecopy / a shared Box, or '
                 'changed in place before; results kept and compared with their snapshots after the calls for the other reference cells'),
+    Clause('option_pairs', oracle_option_pairs, enumerate=gens_c02.option_pair_cases,
+           min_share={'nt': 0.43, 'nt_entries_differ': 0.38, 'system_state_shared': 0.24, 'ledger': 0.5},
+           desc='every ORDERED pair of (entry point, periodicity) states - am.dvect, am.dmag, System.dvect, System.dmag, displacement '
+                "with 'final' / default / 'initial' / None, each under the 8 settings: 64 x 64 pairs per cell - run one after the other "
+                'on the same Box and System objects, then the first again (same bits); every call judged by the lattice, 27-candidate '
+                'and length oracles for the state it was made in'),
 ]
